@@ -2595,6 +2595,18 @@ func (db *DB) checkpointWithExecutor(ctx context.Context, mode string, exec *syn
 			return false, err
 		}
 		restartedBeforeCheckpoint = !bytes.Equal(hdr, mid)
+
+		// The read lock was released while the checkpoint ran. Now that it
+		// is held again, copy anything that was committed in that window:
+		// if it has been backfilled meanwhile, the write below restarts the
+		// WAL and overwrites it.
+		if !restartedBeforeCheckpoint {
+			result, err = db.verifyAndSyncWithExecutor(ctx, true, exec, 0)
+			if err != nil {
+				return false, fmt.Errorf("cannot copy wal after checkpoint: %w", err)
+			}
+			exec.applySyncResult(result)
+		}
 	}
 
 	if barrierTx != nil {
